@@ -185,6 +185,51 @@ fn gen_pat(rng: &mut Rng, depth: usize) -> String {
     }
 }
 
+/// A mutant that keeps the token structure: one identifier, constructor, destructor or literal is
+/// replaced by another token of the same lexical shape from the same file, or a literal changes
+/// its kind (number to string and back). None when the file offers no such site.
+pub fn same_shape_mutant(src: &str, rng: &mut Rng) -> Option<String> {
+    let raw = crate::c11::raw_stream(src);
+    let shape = |t: &str| -> u8 {
+        let c = t.chars().next().unwrap_or(' ');
+        if t.starts_with('+') && t.len() > 1 { 1 } else if t.starts_with('.') && t.len() > 1 { 2 }
+        else if c.is_ascii_uppercase() { 3 } else if c.is_ascii_lowercase() || c == '_' { 4 }
+        else if c.is_ascii_digit() || (c == '-' && t.len() > 1 && t[1..].starts_with(|d: char| d.is_ascii_digit())) { 5 } else if c == '"' { 6 } else { 0 }
+    };
+    const KEYWORDS: [&str; 24] = ["end", "begin", "data", "codata", "as", "def", "define", "let", "param", "in", "that",
+        "do", "ret", "fn", "pi", "fix", "match", "comatch", "forall", "sigma", "exists", "_", "-", "--"];
+    let mut depth = 0usize;
+    let mut sites: Vec<usize> = Vec::new();
+    for (i, c) in raw.classes.iter().enumerate() {
+        match c {
+            | crate::c11::Raw::Open => depth += 1,
+            | crate::c11::Raw::Close if depth > 0 => depth -= 1,
+            | crate::c11::Raw::Code if depth == 0 => {
+                let t = &src[raw.spans[i].0..raw.spans[i].1];
+                if shape(t) != 0 && !KEYWORDS.contains(&t) {
+                    sites.push(i);
+                }
+            }
+            | _ => {}
+        }
+    }
+    if sites.len() < 2 {
+        return None;
+    }
+    let text = |i: usize| &src[raw.spans[i].0..raw.spans[i].1];
+    let a = *rng.pick(&sites);
+    let replacement: String = if matches!(shape(text(a)), 5 | 6) && rng.chance(1, 2) {
+        if shape(text(a)) == 5 { "\"s\"".into() } else { "7".into() }
+    } else {
+        let same: Vec<usize> = sites.iter().copied().filter(|b| shape(text(*b)) == shape(text(a)) && text(*b) != text(a)).collect();
+        if same.is_empty() {
+            return None;
+        }
+        text(*rng.pick(&same)).to_string()
+    };
+    Some(format!("{}{}{}", &src[..raw.spans[a].0], replacement, &src[raw.spans[a].1..]))
+}
+
 fn mutate_tokens(src: &str, rng: &mut Rng) -> String {
     // token-level mutation of a repository source: delete / duplicate / swap / replace / insert
     let raw = crate::c11::raw_stream(src);
